@@ -73,3 +73,103 @@ impl Drop for GuardBuf {
         }
     }
 }
+
+// ---------------------------------------------------------------------------------------------
+// Electric-fence global allocator (runtime switch)
+// ---------------------------------------------------------------------------------------------
+//
+// While FENCE_ON is set, every heap block with alignment <= FENCE_MAX_ALIGN (the Resizer's Vec<u8>
+// scratch buffers, the Vec<i16>/Vec<i32>/Vec<f64> coefficient chunks the SIMD kernels load with
+// 8/16/32-byte reads) gets its own mapping with the data flush against a PROT_NONE page, so that a
+// single byte of over-read/over-write is a SIGSEGV. Because the start address is
+// `page_end - size`, byte buffers also come out misaligned (addresses ≡ 1,2,3 mod 4) for most
+// sizes — the allocator's legal but rarely seen answer for align-1 requests.
+use std::alloc::{GlobalAlloc, Layout, System};
+use std::sync::atomic::{AtomicBool, AtomicUsize, Ordering};
+
+pub static FENCE_ON: AtomicBool = AtomicBool::new(false);
+pub static FENCE_MAX_ALIGN: AtomicUsize = AtomicUsize::new(8);
+pub static FENCED_BLOCKS: AtomicUsize = AtomicUsize::new(0);
+
+const SLOTS: usize = 1 << 14;
+#[allow(clippy::declare_interior_mutable_const)]
+const ZERO: AtomicUsize = AtomicUsize::new(0);
+static TABLE: [AtomicUsize; SLOTS] = [ZERO; SLOTS];
+
+fn slot_of(p: usize) -> usize {
+    (p >> 4).wrapping_mul(0x9E3779B97F4A7C15usize) >> (usize::BITS as usize - 14)
+}
+
+fn table_insert(p: usize) -> bool {
+    let mut i = slot_of(p);
+    for _ in 0..SLOTS {
+        // free slot or tombstone
+        if TABLE[i].compare_exchange(0, p, Ordering::AcqRel, Ordering::Relaxed).is_ok() || TABLE[i].compare_exchange(1, p, Ordering::AcqRel, Ordering::Relaxed).is_ok() {
+            return true;
+        }
+        i = (i + 1) & (SLOTS - 1);
+    }
+    false
+}
+
+fn table_remove(p: usize) -> bool {
+    let mut i = slot_of(p);
+    for _ in 0..SLOTS {
+        let v = TABLE[i].load(Ordering::Acquire);
+        if v == p {
+            // tombstone = 1 (never a valid pointer) keeps probe chains intact
+            TABLE[i].store(1, Ordering::Release);
+            return true;
+        }
+        if v == 0 {
+            return false;
+        }
+        i = (i + 1) & (SLOTS - 1);
+    }
+    false
+}
+
+pub struct Efence;
+
+unsafe impl GlobalAlloc for Efence {
+    unsafe fn alloc(&self, layout: Layout) -> *mut u8 {
+        if FENCE_ON.load(Ordering::Relaxed) && layout.align() <= FENCE_MAX_ALIGN.load(Ordering::Relaxed) && layout.size() > 0 && layout.size() < (1 << 26) {
+            let size = layout.size();
+            // keep the requested alignment: round the size up to it for the placement
+            let placed = (size + layout.align() - 1) / layout.align() * layout.align();
+            let data_pages = (placed + PAGE - 1) / PAGE;
+            let map_len = (data_pages + 1) * PAGE;
+            let base = libc::mmap(ptr::null_mut(), map_len, libc::PROT_READ | libc::PROT_WRITE, libc::MAP_PRIVATE | libc::MAP_ANONYMOUS, -1, 0);
+            if base != libc::MAP_FAILED {
+                let base = base as *mut u8;
+                libc::mprotect(base.add(map_len - PAGE) as *mut _, PAGE, libc::PROT_NONE);
+                let p = base.add(map_len - PAGE - placed);
+                if table_insert(p as usize) {
+                    FENCED_BLOCKS.fetch_add(1, Ordering::Relaxed);
+                    return p;
+                }
+                libc::munmap(base as *mut _, map_len);
+            }
+        }
+        System.alloc(layout)
+    }
+    unsafe fn dealloc(&self, p: *mut u8, layout: Layout) {
+        if table_remove(p as usize) {
+            let placed = (layout.size() + layout.align() - 1) / layout.align() * layout.align();
+            let data_pages = (placed + PAGE - 1) / PAGE;
+            let map_len = (data_pages + 1) * PAGE;
+            let base = (p as usize + placed) - data_pages * PAGE;
+            libc::munmap(base as *mut _, map_len);
+            return;
+        }
+        System.dealloc(p, layout)
+    }
+}
+
+/// Run `f` with the fence switched on.
+pub fn fenced<R>(f: impl FnOnce() -> R) -> R {
+    let was = FENCE_ON.swap(true, Ordering::SeqCst);
+    let r = f();
+    FENCE_ON.store(was, Ordering::SeqCst);
+    r
+}
